@@ -118,7 +118,7 @@ pub struct ProbeStats {
 pub static CANCELLED: AtomicBool = AtomicBool::new(false);
 
 pub struct Probe {
-    inner: Box<dyn Block + Send>,
+    inner: std::mem::ManuallyDrop<Box<dyn Block + Send>>,
     stats: Arc<ProbeStats>,
 }
 impl Probe {
@@ -127,7 +127,7 @@ impl Probe {
         *stats.name.lock().unwrap() = inner.block_name().to_string();
         (
             Box::new(Probe {
-                inner,
+                inner: std::mem::ManuallyDrop::new(inner),
                 stats: stats.clone(),
             }),
             stats,
@@ -136,6 +136,13 @@ impl Probe {
 }
 impl Drop for Probe {
     fn drop(&mut self) {
+        // The block (and with it its stream ends) goes first; only then is it
+        // announced as gone. Announcing first let the monitor see "block gone,
+        // but its neighbours still find the stream open" for as long as this
+        // thread stayed preempted between the two steps (seen once in 100 000
+        // thorough runs on a loaded machine: a false "does-not-terminate").
+        // SAFETY: `inner` is not used after this point.
+        unsafe { std::mem::ManuallyDrop::drop(&mut self.inner) };
         self.stats.dropped.store(true, Ordering::SeqCst);
         rec::note_progress();
     }
